@@ -77,7 +77,10 @@ type op struct {
 	XdsEs    []xdsCLA     `json:"xds_endpoints,omitempty"`
 	Listener *mListener   `json:"listener,omitempty"`
 	Note     string       `json:"note,omitempty"`
-	Applied  bool         `json:"applied"`       // the model's verdict: the operation is valid and changes/keeps state as written
+	// Via "debug-api": the operation is delivered as an HTTP request to the admin server's debug handlers
+	// (/debug/update_config, /debug/update_route; build tag mosn_debug) instead of a direct call of the manager
+	Via     string `json:"via,omitempty"`
+	Applied bool   `json:"applied"`       // the model's verdict: the operation is valid and changes/keeps state as written
 	Err      string       `json:"err,omitempty"` // what MOSN returned
 }
 
@@ -286,6 +289,21 @@ func splitAddr(a string) (string, uint32) {
 func applyLive(n names, o *op) error {
 	rm := router.GetRoutersMangerInstance()
 	ca := cluster.GetClusterMngAdapterInstance()
+	if o.Via == "debug-api" && debugAPIAvailable {
+		switch o.Kind {
+		case "AddOrUpdateRouters":
+			return debugUpdateConfig("router", routerToV2(n.r(o.R), o.Vhosts))
+		case "AddOrUpdateClusterAndHost":
+			c := clusterToV2(n.k(o.K), o.Cluster)
+			c.Hosts = hostsToV2(o.Hosts)
+			return debugUpdateConfig("cluster", c)
+		case "AddRoute":
+			r := o.Route.toV2()
+			return debugUpdateRoute("add", n.r(o.R), o.Domain, &r)
+		case "RemoveAllRoutes":
+			return debugUpdateRoute("remove", n.r(o.R), o.Domain, nil)
+		}
+	}
 	switch o.Kind {
 	case "AddOrUpdateRouters":
 		if o.Note == "nil-config" {
@@ -519,6 +537,9 @@ func genOp(rt *rapid.T, m *model, n names, step int, prev *op, st *caseStats) *o
 			o.Note = "nil-config"
 			o.Vhosts = nil
 		}
+		if o.Note != "nil-config" && rapid.IntRange(0, 3).Draw(rt, "viaDebugAPI") == 0 {
+			o.Via = "debug-api"
+		}
 	case "AddRoute", "RemoveAllRoutes":
 		o.R = pickIdx(rt, rExists, "router")
 		doms := append(append([]string{}, probeHosts...), domainPool...)
@@ -540,6 +561,9 @@ func genOp(rt *rapid.T, m *model, n names, step int, prev *op, st *caseStats) *o
 			}
 			o.Route = &r
 		}
+		if rapid.IntRange(0, 3).Draw(rt, "viaDebugAPI") == 0 {
+			o.Via = "debug-api"
+		}
 	case "AddOrUpdatePrimaryCluster":
 		o.K = rapid.IntRange(0, 2).Draw(rt, "cluster")
 		o.Cluster = genClusterAttrs(rt, st)
@@ -557,6 +581,9 @@ func genOp(rt *rapid.T, m *model, n names, step int, prev *op, st *caseStats) *o
 		o.K = rapid.IntRange(0, 2).Draw(rt, "cluster")
 		o.Cluster = genClusterAttrs(rt, st)
 		o.Hosts = genHosts(rt, st, 0, 4, "hosts")
+		if rapid.IntRange(0, 3).Draw(rt, "viaDebugAPI") == 0 {
+			o.Via = "debug-api"
+		}
 	case "UpdateClusterHosts", "AppendClusterHosts":
 		o.K = pickIdx(rt, kExists, "cluster")
 		o.Hosts = genHosts(rt, st, 0, 4, "hosts")
@@ -921,6 +948,10 @@ func (r *run) step(o *op, final bool) {
 		delete(st.deletedListeners, n.l(o.L))
 	}
 	classes["op:"+o.Kind] = true
+	if o.Via == "debug-api" && debugAPIAvailable {
+		classes["via:debug-api"] = true
+		classes["via:debug-api:"+o.Kind] = true
+	}
 	if o.Note != "" {
 		classes["invalid:"+o.Note] = true
 	}
